@@ -295,3 +295,23 @@ def l_exp(env):
     zero = {tv: A.Frac.const(0)}
     # initial values: R(0) = I (direct substitution is a 0/0 form in th*t; use the polynomial part): t V and t W vanish at t = 0 by the factor t
     env.eq('q-real coefficient at 0', EM.ev(c['q_real'], env, th * 0), 1)
+
+
+@obligation('C01.lean.atom_axiom_schemas', functions=['pvc/atoms.py (engine): axiom schemas of the sqrt / sin / cos / exp / log / atan / asin / cbrt / pi atoms'],
+            thorough_only=True, no_validate=True, timeout=900,
+            note='Lean 4.33 + Mathlib re-proves every relation / sign fact / derivation rule that atom creation instantiates (lean/Axioms.lean); '
+                 'their USE by the normal form stays trusted and is cross-checked numerically on every run')
+def lean_axioms(env):
+    import subprocess, os, re
+    root = os.path.dirname(os.path.dirname(os.path.abspath(__file__)))
+    src = os.path.join(root, 'lean', 'Axioms.lean')
+    text = open(src).read()
+    n_thm = len(re.findall(r'^theorem ', text, re.M))
+    clean = not re.search(r'\bsorry\b|^axiom |\badmit\b', text, re.M)
+    pr = subprocess.run(['lean', src], capture_output=True, text=True, timeout=850)
+    ok = pr.returncode == 0 and 'error' not in pr.stdout and 'error' not in pr.stderr and 'sorry' not in pr.stdout
+    if env.sym:
+        env._record(f'lean accepts all {n_thm} axiom-schema theorems (no sorry, no axiom)', 'proved' if (ok and clean and n_thm >= 40) else 'unknown',
+                    {'backend': 'lean 4.33 + Mathlib', 'returncode': pr.returncode, 'output': (pr.stdout + pr.stderr)[-400:]})
+    else:
+        env.holds('lean accepts all axiom-schema theorems', ok and clean)
